@@ -108,9 +108,7 @@ func c05Build(id int, raw json.RawMessage) *Job {
 	r := scRenderMode(tc.Items, scModeOf(raw, scSeed))
 	pc := &proto.Case{ID: id, Files: r.files(), Init: json.RawMessage(allOnLocal)}
 	scMaybeProject(pc, r)
-	for i, f := range r.Files {
-		pc.Steps = append(pc.Steps, openStep(f, r.Text[i]))
-	}
+	scOpenSteps(pc, r)
 	d := &c05Data{tc: &tc, r: r}
 	hv := hash64(string(raw), scSeed)
 	for i, o := range r.Occ {
